@@ -26,9 +26,116 @@ pub enum Op {
 }
 
 #[derive(Clone, Debug, Serialize, Deserialize)]
-pub struct Case {
+pub struct Direct {
     pub ceiling: u32,
     pub ops: Vec<Op>,
+}
+
+/// Endpoints variant: the "configured ceiling" of a connection between a real Client and Server is
+/// min(own max_send_rate, the PEER's max_receive_rate); all three settings of each side (send rate, receive rate,
+/// receive allocation - neighbours in the handshake frames) are generated independently.
+#[derive(Clone, Debug, Serialize, Deserialize)]
+pub struct EpRates {
+    pub seed: u64,
+    /// (max_send_rate, max_receive_rate, max_receive_alloc)
+    pub server: (u32, u32, u32),
+    pub client: (u32, u32, u32),
+    pub latency_us: [u32; 2],
+    pub period_us: u32,
+    /// every n-th datagram of each direction is lost (0 = none)
+    pub drop_every: [u8; 2],
+    /// (tick, from_client, size, count)
+    pub sends: Vec<(u16, bool, u16, u8)>,
+    pub ticks: u16,
+}
+
+#[derive(Clone, Debug, Serialize, Deserialize)]
+#[serde(untagged)]
+pub enum Case {
+    Direct(Direct),
+    Endpoints { endpoints: EpRates },
+}
+
+fn run_endpoints(c: &EpRates) -> CaseResult {
+    use crate::sim::world::*;
+    let mut classes: Vec<&'static str> = vec!["endpoints"];
+    let ep = |r: &(u32, u32, u32)| EpCfg { max_send_rate: r.0.max(1472), max_receive_rate: r.1.max(1472), max_receive_alloc: r.2.max(3000), max_packet_size: 1400, ..EpCfg::default() };
+    let scfg = ServerCfg { ep: ep(&c.server), ..ServerCfg::default() };
+    let ccfg = ep(&c.client);
+    let mut w = World::new(c.seed, &scfg);
+    let mut fates: [Vec<Fate>; 2] = [Vec::new(), Vec::new()];
+    for d in 0..2 {
+        if c.drop_every[d] > 0 {
+            for k in 0..4000usize {
+                // (the handshake itself is left alone)
+                fates[d].push(if k > 3 && k % (c.drop_every[d] as usize + 1) == 0 { Fate::Drop } else { Fate::Deliver(0) });
+            }
+        }
+    }
+    let ci = w.add_client(&ccfg, LinkState { latency_us: c.latency_us, fates, ..LinkState::default() });
+    let caddr = w.clients[ci].addr;
+    let period = c.period_us.max(1000) as u64;
+    let ceil = [(ccfg.max_send_rate as f64).min(scfg.ep.max_receive_rate as f64), (scfg.ep.max_send_rate as f64).min(ccfg.max_receive_rate as f64)];
+    let mut idx = [0u32; 2];
+    let mut peak = [0.0f64; 2];
+    let mut below_peak = [false; 2];
+    for tick in 0..c.ticks {
+        w.advance(period);
+        for (at, from_client, size, count) in c.sends.iter() {
+            if crate::engine::pick_index(*at, c.ticks as usize) == tick as usize {
+                for _ in 0..*count {
+                    let d = if *from_client { 0 } else { 1 };
+                    let payload = world_payload(c.seed, d as u8 * 100, idx[d], (*size as usize).clamp(5, 1400));
+                    idx[d] += 1;
+                    if *from_client {
+                        w.client_send(ci, payload, 0, 3);
+                    } else {
+                        w.server_send(ci, payload, 0, 3);
+                    }
+                }
+            }
+        }
+        w.step_server();
+        w.step_client(ci);
+        let rates = [
+            w.clients[ci].client.as_ref().and_then(|cl| cl.verif_stats()).map(|v| v.send_rate),
+            w.server.as_ref().and_then(|s| s.client(&caddr).and_then(|rc| rc.borrow().verif_stats())).map(|v| v.send_rate),
+        ];
+        for d in 0..2 {
+            if let Some(x) = rates[d] {
+                if x > ceil[d] {
+                    return CaseResult::fail(
+                        if d == 0 { "oracle:endpoints:above_negotiated_ceiling:client" } else { "oracle:endpoints:above_negotiated_ceiling:server" },
+                        format!(
+                            "t={} us: the allowed send rate of {} is {x} B/s; the configured ceiling of that direction is min(its max_send_rate, the peer's max_receive_rate) = {} B/s (server send/receive/alloc {:?}, client {:?})",
+                            w.now_us, if d == 0 { "the client" } else { "the server" }, ceil[d], c.server, c.client
+                        ),
+                    );
+                }
+                if x < (FLOOR as f64).min(ceil[d]) {
+                    return CaseResult::fail("oracle:endpoints:below_floor", format!("t={} us: allowed send rate {x} B/s of endpoint {d} is below the s/64 floor", w.now_us));
+                }
+                if x < peak[d] {
+                    below_peak[d] = true;
+                }
+                peak[d] = peak[d].max(x);
+            }
+        }
+    }
+    let mut nontrivial = false;
+    for d in 0..2 {
+        if peak[d] >= ceil[d] {
+            classes.push("endpoints_rate_reached_the_ceiling");
+            nontrivial = true;
+        }
+        if below_peak[d] {
+            classes.push("endpoints_rate_fell");
+        }
+    }
+    if (c.server.1 as f64) < (c.client.0 as f64).min(c.server.2 as f64) || (c.client.1 as f64) < (c.server.0 as f64).min(c.client.2 as f64) {
+        classes.push("endpoints_peer_receive_rate_binds_and_differs_from_alloc");
+    }
+    CaseResult::ok(nontrivial, classes)
 }
 
 fn x_bps(r: f64, p: f64) -> f64 {
@@ -89,7 +196,21 @@ impl Check for C14 {
 
     fn strategy(&self, tier: Tier) -> BoxedStrategy<Case> {
         let max_ops = tier.pick(40usize, 160usize);
-        (ceiling_strategy(), proptest::collection::vec(op_strategy(), 1..max_ops)).prop_map(|(ceiling, ops)| Case { ceiling, ops }).boxed()
+        let direct = (ceiling_strategy(), proptest::collection::vec(op_strategy(), 1..max_ops)).prop_map(|(ceiling, ops)| Case::Direct(Direct { ceiling, ops }));
+        let rate = || prop_oneof![1 => Just(1472u32), 3 => 1472u32..60_000, 3 => 60_000u32..4_000_000, 1 => Just(u32::MAX), 1 => (0.0f64..1.0).prop_map(|u| (1472.0 * (u32::MAX as f64 / 1472.0).powf(u)) as u32)];
+        let alloc = || prop_oneof![2 => 3000u32..60_000, 3 => 60_000u32..4_000_000, 1 => Just(1_000_000u32), 1 => Just(u32::MAX)];
+        let triple = move || (rate(), rate(), alloc());
+        let endpoints = (
+            (any::<u64>(), triple(), triple()),
+            (prop_oneof![Just(0u32), 0u32..5_000, 5_000u32..80_000], prop_oneof![Just(0u32), 0u32..5_000, 5_000u32..80_000]),
+            prop_oneof![Just(2_000u32), Just(10_000u32), Just(16_000u32), Just(50_000u32)],
+            (prop_oneof![3 => Just(0u8), 2 => 3u8..40], prop_oneof![3 => Just(0u8), 2 => 3u8..40]),
+            proptest::collection::vec((any::<u16>(), any::<bool>(), prop_oneof![5u16..200, 200u16..1400], 1u8..60), 1..12),
+            tier.pick(60u16..400, 100u16..1500),
+        )
+            .prop_map(|((seed, server, client), (l0, l1), period_us, (d0, d1), sends, ticks)| Case::Endpoints { endpoints: EpRates { seed, server, client, latency_us: [l0, l1], period_us, drop_every: [d0, d1], sends, ticks } });
+        // (an endpoint case costs about as much as a thousand direct ones)
+        prop_oneof![3000 => direct, 1 => endpoints].boxed()
     }
 
     fn cases(&self, tier: Tier) -> u64 {
@@ -105,7 +226,7 @@ impl Check for C14 {
     }
 
     fn rule(&self) -> String {
-        "case = (ceiling >= 1472 B/s, sequence of notify_frame_sent / step(dt, optional feedback{rtt sample 0..120 s, receive rate 0..2^32-1, loss rate 0..1, rate-limited flag})) driven directly into SendRateComp; non-trivial = the history reaches equation mode (a feedback reported loss) and contains at least one no-feedback step that changed the rate or the RTO (an expiry); distinct = distinct serialised case".into()
+        "case = (ceiling >= 1472 B/s, sequence of notify_frame_sent / step(dt, optional feedback{rtt sample 0..120 s, receive rate 0..2^32-1, loss rate 0..1, rate-limited flag})) driven directly into SendRateComp; about one case in 3000 (they cost a thousand times more) is an Endpoints case instead: a real Client and Server whose max_send_rate, max_receive_rate and max_receive_alloc are generated independently exchange Reliable bursts over a link that loses every n-th datagram or none, and after every step the allowed send rate of each side must lie between the s/64 floor and the configured ceiling of its direction, min(own max_send_rate, the peer's max_receive_rate); non-trivial (direct cases) = the history reaches equation mode (a feedback reported loss) and contains at least one no-feedback step that changed the rate or the RTO (an expiry); distinct = distinct serialised case".into()
     }
 
     fn assumptions(&self) -> Vec<String> {
@@ -116,6 +237,10 @@ impl Check for C14 {
     }
 
     fn run(&self, case: &Case) -> CaseResult {
+        let case = match case {
+            Case::Direct(d) => d,
+            Case::Endpoints { endpoints } => return run_endpoints(endpoints),
+        };
         let mut comp = SendRateComp::new(case.ceiling);
         let mut now_ms: u64 = 0;
         let mut started = false;
